@@ -28,7 +28,7 @@ RULE = ('cases: (a) seeded random histories of 30-200 ops (add 45%/remove 25%/st
 ASSUMPTIONS = ['priorities are fixed while a system is registered (as the property states)',
                'systems do not override __eq__ (identity equality)',
                'the System/Collector subclasses used for logging only append to a list in execute()/collect()']
-FLOORS = {'quick': {'pattern_like_or_unnormalised_ids': 2400, 'cases_in_mode_debuglog': 169, 'cases_in_mode_warnings': 169, 'cases_in_mode_optimised': 169, 'failing_system_interrupt': 317, 'timesteps_with_a_failing_system': 1114, 'unrelated_models_constructed_mid_history': 1979, 'steps_after_in_call_change': 1783, 'steps_inside_multi_step_call': 5883, 'step_via_executeSystems': 3411, 'step_via_execute': 3434, 'falsy_system_objects': 3454, 'tie_pairs': 500, 'rejected_add': 50, 'rejected_remove': 50, 'steps_compared': 2000,
+FLOORS = {'quick': {'systems_that_start_late': 2498, 'pattern_like_or_unnormalised_ids': 2400, 'cases_in_mode_debuglog': 169, 'cases_in_mode_warnings': 169, 'cases_in_mode_optimised': 169, 'failing_system_interrupt': 317, 'timesteps_with_a_failing_system': 1114, 'unrelated_models_constructed_mid_history': 1979, 'steps_after_in_call_change': 1783, 'steps_inside_multi_step_call': 5883, 'step_via_executeSystems': 3411, 'step_via_execute': 3434, 'falsy_system_objects': 3454, 'tie_pairs': 500, 'rejected_add': 50, 'rejected_remove': 50, 'steps_compared': 2000,
                     'reregistrations': 200, 'in_cycle_change_steps': 1000, 'big_histories': 6, 'big_systems': 300, 'two_model_histories': 500, 'contract:SystemManager.queue': 1000, 'reach:Core.SystemManager.add_system': 1000,
                     'reach:Core.SystemManager.execute_systems': 1000},
           'thorough': {'tie_pairs': 50000, 'rejected_add': 5000, 'rejected_remove': 5000, 'steps_compared': 100000,
@@ -90,7 +90,7 @@ def _fixtures():
         def execute(self):
             d = self.driver
             t = self.model.systems.timestep
-            d.order_at_start[t] = d.expected_order()
+            d.order_at_start[t] = d.expected_order(t)
             pending, d.pending = d.pending, []
             pending = pending + d.pending_at.pop(t, [])
             if pending:
@@ -134,8 +134,10 @@ class Driver:
         """The priority the harness asked for (constructor argument or later assignment) - not what the object reports back."""
         return getattr(obj, 'intended_priority')
 
-    def expected_order(self):
-        return [r['id'] for r in sorted(self.ref, key=lambda r: (-r['prio'], r['seq']))]
+    def expected_order(self, t=None):
+        """The registered systems in (descending priority, registration order); for a timestep t only those whose window has opened
+        (some systems start late: they keep their place in the order for when they wake up)."""
+        return [r['id'] for r in sorted(self.ref, key=lambda r: (-r['prio'], r['seq'])) if t is None or r['obj'].start <= t]
 
     def registered(self, sid):
         return next((r for r in self.ref if r['id'] == sid), None)
@@ -208,7 +210,7 @@ class Driver:
                 warnings.simplefilter('ignore')
                 self.model.systems.executeSystems()        # deprecated spelling
         self.ctx.count('step_via_' + how)
-        exp = self.expected_order()
+        exp = self.expected_order(t)
         self.ctx.ev()
         self.ctx.count('steps_compared')
         if [i for _, i in self.log] != exp or any(tt != t for tt, _ in self.log):
@@ -245,7 +247,10 @@ class Driver:
         cls = faults.pick(self.rng)
         del self.log[:]
         self.log.plan[victim] = cls
-        exp = self.expected_order()
+        exp = self.expected_order(self.model.systems.timestep)
+        if victim not in exp:
+            self.log.plan.clear()
+            return
         _, err = faults.attempt(self.model.systems.execute_systems if self.rng.random() < 0.5 else self.model.execute)
         self.log.plan.clear()
         got = [i for _, i in self.log]
@@ -318,6 +323,9 @@ def case_history(ctx, case):
                 d.objs[n] = reps.pick_variant(rng, d.LogSystem.variants)(n, d.model, d.log, priority=P(rng.choice(pool)))
             if type(d.objs[n]) not in (d.LogSystem, d.LogCollector):
                 ctx.count('falsy_system_objects')
+            if not big and rng.random() < 0.3:
+                d.objs[n].start = rng.choice([1, 2, 3, 5, 8, 13])          # a system that starts late (its place in the order is fixed at registration)
+                ctx.count('systems_that_start_late')
         d.ever_removed = set()
     rereg, ties = 0, 0
     nops = rng.randint(30, 200) if ctx.tier == 'thorough' else rng.randint(30, 90)
